@@ -963,7 +963,7 @@ func (c *Conn) dispatch(fr *FrameHeader) bool {
 		// through the HPACK decoder, or every later response is decoded
 		// against the wrong table, and DATA has used the connection window,
 		// which the server only gets back if we say so.
-		return c.dropFrame(fr)
+		return c.dropFrame(fr) || (c.state == connStateClosed && c.reqCount() == 0)
 	}
 
 	// Released on the way out even if readStream panics: leaving the Ctx locked
@@ -1581,7 +1581,7 @@ loop:
 				ctx.resolve(ErrGoAwayUnprocessed)
 			}
 
-			if c.reqCount() == 0 {
+			if ga.stream == 0 {
 				_ = c.c.Close()
 				err = ga
 			}
